@@ -174,6 +174,7 @@ static void c13_gen(Rng &rng, Plan &plan, bool thorough)
 	for (int k = 0; k < n; ++k) {
 		int r = (int)rng.below(20);
 		int h = (int)rng.below(3);
+		if (k == 0 && rng.chance(150)) r = 16;   // decode an empty Index, then go on with the decoded object
 		if (r < 8) {
 			Op op("append");
 			op.set("h", h);
@@ -184,7 +185,7 @@ static void c13_gen(Rng &rng, Plan &plan, bool thorough)
 		else if (r < 12) { Op op("padding"); op.set("h", h).set("n", (int64_t)(rng.chance(800) ? 4 * rng.below(40) : (rng.chance(500) ? rng.below(1000) : VLI_MAX - rng.below(16)))); plan.ops.push_back(op); }
 		else if (r < 15) { Op op("cat"); op.set("dest", h).set("src", (h + 1 + (int)rng.below(2)) % 3).set("iter_steps", rng.chance(500) ? (int64_t)rng.below(30) : -1); plan.ops.push_back(op); }
 		else if (r < 16) { Op op("dup"); op.set("src", h).set("dest", (h + 1) % 3); plan.ops.push_back(op); }
-		else if (r < 17) { Op op("encdec"); op.set("h", h); plan.ops.push_back(op); }
+		else if (r < 17) { Op op("encdec"); op.set("h", h).set("replace", rng.chance(500) ? 1 : 0); plan.ops.push_back(op); }
 		else { Op op("check"); op.set("h", h).set("seed", (int64_t)rng.below(1 << 30)); plan.ops.push_back(op); }
 	}
 	for (int h = 0; h < 3; ++h) { Op op("check"); op.set("h", h).set("seed", (int64_t)rng.below(1 << 30)); plan.ops.push_back(op); }
@@ -345,6 +346,15 @@ static void c13_exec(const Plan &plan, Verdict &v)
 			if (!e.empty()) { v.fail("model-mismatch", "C13/model-mismatch", "decoded Index: " + e); break; }
 			if (tmp.cur != 0) { v.fail("leak", "C13/leak", "decoded index leaked"); tmp.purge(); break; }
 			v.count("ops.encdec");
+			if (op.get("replace", 0)) {
+				// the history continues on the decoded object (one Stream holding all Records)
+				d = nullptr; ml = UINT64_MAX; ip = 0;
+				r = lzma_index_buffer_decode(&d, &ml, &als[h].a, buf.data(), &ip, buf.size());
+				if (r != LZMA_OK || d == nullptr) { v.fail("decode", "C13/decode", fmt("decoding the encoded Index again returned %s", ret_name(r))); break; }
+				lzma_index_end(H[h].i, &als[h].a);
+				H[h].i = d; H[h].m = one;
+				v.count(one.blocks() == 0 ? "reach.history_continues_on_decoded_empty_index" : "reach.history_continues_on_decoded_index");
+			}
 		} else if (op.name == "check") {
 			int h = (int)op.get("h") % 3; if (!H[h].live) continue;
 			if (!full_check(h, (uint64_t)op.get("seed"), "check")) break;
